@@ -150,7 +150,8 @@ Inductive msg :=
 Inductive input :=
 | ICreateInv (i : inv) (k : key)
 | IAcceptInv (p : proto) (i : inv) (k : key) (e : ep) (c : cid) (t : th) (my : doc)
-| IRecv (m : msg) (c : cid) (my : doc).
+| IRecv (m : msg) (c : cid) (my : doc)
+| IRestart.     (* the framework instance is stopped and a new one started over the same persisted stores *)
 
 Inductive out :=
 | OSend (e : ep) (ks : list key) (m : msg)
@@ -328,6 +329,9 @@ Definition step (v : variant) (a : agent) (i : input) : agent * list out :=
           let '(a1, ok) := set_keys v (set_vdr a s) (d_id dc) (d_keys dc) in
           (a1, [if ok then dispatch a1 fk tk else OReject])
       end
+  | IRestart =>
+      (* everything the agent's decisions rest on lives in the persisted stores: nothing is lost, nothing is relaxed *)
+      (a, [])
   | IRecv (MRotate iss sub signer fk tk) _ _ =>
       (* getDIDs from the envelope keys; middleware HandleInboundMessage -> handleInboundRotate: sub must be the
          sender, the connection (my, iss) must exist, the JWS must verify under a key of iss's document.  A v2
